@@ -59,7 +59,7 @@ def validate(number):
     """Check if the number is a valid ISNI. This checks the length and
     whether the check digit is correct."""
     number = compact(number)
-    if not isdigits(number[:-1]):
+    if not isdigits(number[:-1]) or number[-1:] not in '0123456789X':
         raise InvalidFormat()
     if len(number) != 16:
         raise InvalidLength()
